@@ -6,7 +6,8 @@ TRUSTED = [
     "Coq 8.16.1 kernel",
     "the effect model of dump (Model/Dump.v) is tied to the code by fault enumeration on real files: every validator of every "
     "class reachable during a dump of each of the seven formats (enumerated from the regenerated inventory) is made to fail, one "
-    "at a time, by replacing the bound method in the harness process; plus one really invalid nested value per format",
+    "at a time, by replacing the bound method in the harness process; plus one really invalid nested value per format and one "
+    "nested value of a type no validator inspects and the encoder cannot write",
     "the operating system's open/truncate/write semantics; only local paths (URL destinations are not modelled)",
 ]
 
@@ -35,7 +36,8 @@ def run(chk):
             continue
         fired += 1
         k["fired"] += 1
-        where = ("injected failure in %s.%s" % tuple(c["inject"])) if c["inject"] else "a really invalid nested value"
+        where = ("a nested value the encoder cannot write" if c["inject"] == "unencodable" else
+                 "injected failure in %s.%s" % tuple(c["inject"])) if c["inject"] else "a really invalid nested value"
         fid = "D1-dump-truncates-before-nested-validation"
         if existed and not same:
             chk.violation("%s dump failed (%s, %s) and the previous file was changed (now %s bytes)" % (c["kind"], outcome, where, size),
@@ -52,6 +54,6 @@ def run(chk):
         level="proof",
         rule="for each of the seven formats: a valid object is written to the destination (or the destination does not exist), then a "
              "second dump to the same path is made to fail at each validator of each class reachable during the dump (one "
-             "injected failure at a time) and with one really invalid nested value; existence and bytes of the destination are "
+             "injected failure at a time), with one really invalid nested value and with one unencodable nested value; existence and bytes of the destination are "
              "compared before/after; non-trivial = the failure fired",
         trusted=TRUSTED, extra_cov={"exhaustive": True})
